@@ -7,9 +7,13 @@
 //
 // Process model: every shard is a SUPERVISOR that execs a WORKER (the same binary). The worker writes
 // the case in flight (a small program of steps, byte-string arguments included) and the entry point in
-// flight into a shared memory file before each call. When the worker dies (sanitizer report, assertion,
-// std::terminate, signal) or stops making calls for --watchdog seconds, the supervisor turns the case in
-// flight into a witness (class C02/<kind>/<entry point>), and starts a new worker after that unit.
+// flight into a shared record (an unlinked tmpfs file inherited as a descriptor) before each call. When the
+// worker dies (sanitizer report, assertion, std::terminate, signal) or burns --watchdog CPU seconds inside
+// one call, the supervisor turns the case in flight into a witness -- class C02/<kind>/<faulting library
+// function> when the report has a stack (innermost ada:: frame), else C02/<kind>/<entry point> -- and starts
+// a new worker right after that case. Reports whose innermost frames are libstdc++'s std::regex internals
+// (deep recursion) are counted but are not ada's code. Under an overloaded machine every stage gets a share
+// of the --deadline; whatever is not finished is reported (exhaustive:false), never judged.
 // Exceptions leaving a call are caught in the worker (class C02/exception/<entry point>). Leaks: the
 // number of live heap blocks must return to its value at the start of every case; if it does not twice
 // in a row LeakSanitizer brackets a third execution (class C02/leak/<entry point>); a recoverable LSan
